@@ -56,7 +56,8 @@ def check_commit_note(ex, repo, commit, sessions, two_sided=True, notes=None):
     listed = set(parsed["files"]) if parsed else set()
     for p in sorted(listed - set(files)):
         return {"monitor": "ledger.note", "class": "listed_path_not_in_commit", "detail": {"path": p, "commit": commit}}
-    for path in files:
+    only = (ex.trace.get("cfg") or {}).get("check_only")      # hand-kept scenarios with very many files check a sample
+    for path in (files if not only else [f for f in files if f in only]):
         content = file_at(w, repo, commit, path)
         if content is None or "\0" in content:
             continue
@@ -96,7 +97,10 @@ def check_blame(ex, repo, sessions, rev="HEAD", one_sided=False, notes=None, git
     """git-ai blame --json (when the work tree equals rev) and the simulator's overlay vs Ledger."""
     w = ex.w
     notes = notes or Notes(w, repo)
+    only = (ex.trace.get("cfg") or {}).get("check_only")
     for path in w.tracked_files(repo, rev):
+        if only and path not in only:
+            continue
         content = file_at(w, repo, rev, path)
         if content is None or "\0" in content:
             continue
